@@ -74,11 +74,13 @@ func valuesOfTy(r *rng, ty string, n int) []interface{} {
 	case "bool":
 		out = append(out, true, false)
 	case "str":
-		out = append(out, "", "a", "12", "true", "2021-09-24", "é😀\n\t\"\\", "<>& ", " x ", "AQ==", "\xff\xfe", "NaN", "1e2")
+		out = append(out, "", "a", "12", "true", "2021-09-24", "é😀\n\t\"\\", "<>& ", " x ", "AQ==", "\xff\xfe", "NaN", "1e2",
+			// every character class the JSON writer treats differently: C0 controls, DEL, C1, U+2028/2029, BOM, non-characters, astral
+			"\x00", "\x01\x07\x0b\x1b\x1f", "\x7f", "\u0080\u009f", "\u2028\u2029", "\ufeff", "\ufffd", "\ufffe", "\U000E0001", "\U0010FFFF", "\b\f\r", "a\x00b")
 		for i := 0; i < n/2; i++ {
 			b := make([]byte, r.intn(6))
 			for j := range b {
-				b[j] = byte(0x20 + r.intn(0x5f))
+				b[j] = byte(r.intn(0x80)) // any ASCII byte incl. controls
 			}
 			out = append(out, string(b))
 		}
